@@ -23,6 +23,8 @@ type c06Config struct {
 	bport      uint16
 }
 
+var c06Earlier bool
+
 func c06Client(d *vDriver, id uint32, protoLen int) (*uhppote, c06Config) {
 	cfg := c06Config{
 		configured: nondetBool("configured"),
@@ -33,6 +35,14 @@ func c06Client(d *vDriver, id uint32, protoLen int) (*uhppote, c06Config) {
 		bcastValid: nondetBool("bcast.valid"),
 		bip:        nondetBytes("bcast.ip", 4),
 		bport:      nondetU16("bcast.port"),
+	}
+	if c06Earlier {
+		// an earlier broadcast operation by another client of the same process that has its own broadcast
+		// address configured: where this client's requests go must not depend on it
+		other := &uhppote{devices: map[uint32]Device{}, driver: &vDriver{err: errVerifNoReply},
+			broadcastAddr: types.BroadcastAddrFrom(netip.AddrFrom4([4]byte{nondetU8("earlier.a"), nondetU8("earlier.b"), 1, 255}), nondetU16("earlier.port"))}
+		other.GetDevices()
+		other.GetTime(nondetSerial("earlier.id"))
 	}
 	u := &uhppote{devices: map[uint32]Device{}, driver: d}
 	// one unrelated controller (different serial number) is always configured
@@ -121,4 +131,17 @@ func VerifC06_GetDevices() {
 		verifAssert(specIPEq(d.ip, []byte{255, 255, 255, 255}) && d.port == 60000, "GetDevices: broadcast defaults to 255.255.255.255:60000")
 	}
 	verifReach("c06.GetDevices")
+}
+
+// the same after an earlier broadcast by another client with its own broadcast address (no state is shared)
+func VerifC06_AfterOtherClient() {
+	c06Earlier = true
+	defer func() { c06Earlier = false }()
+	c06GetTime(3)
+}
+
+func VerifC06_DiscoveryAfterOtherClient() {
+	c06Earlier = true
+	defer func() { c06Earlier = false }()
+	VerifC06_GetDevices()
 }
